@@ -1,0 +1,26 @@
+//go:build verif
+// +build verif
+
+package service
+
+import (
+	"com.tuntun.rangers/node/src/middleware/types"
+	"com.tuntun.rangers/node/src/storage/account"
+)
+
+// Verification hook (build tag verif only, add-only): walks the registry of one miner type with the real
+// MinerIterator on a supplied AccountDB (MinerManager.MinerIterator needs the AccountDBManager) and returns
+// every record Current() yields, in iteration order. Entries whose value is not a miner json are skipped,
+// as every caller of the iterator does.
+func VerifC20Iterate(kind byte, accountdb *account.AccountDB) []*types.Miner {
+	res := make([]*types.Miner, 0)
+	iter := MinerManagerImpl.minerIterator(kind, accountdb)
+	for iter.Next() {
+		miner, _ := iter.Current()
+		if nil == miner {
+			continue
+		}
+		res = append(res, miner)
+	}
+	return res
+}
